@@ -66,7 +66,11 @@ def network(draw, tier):
     phis = [draw(st.floats(0.3, 0.95))] + draw(st.lists(st.one_of(st.sampled_from([0.0, 1.0, 0.5, 0.7]), st.floats(0.0, 1.0)), min_size=0, max_size=3))
     phis = list(draw(st.permutations(phis)))
     its = draw(st.sampled_from([0, 1, 2, 5, 12, 25, 25, 40]))
-    return {"n": n, "motifs": motifs, "relabel": relabel, "phis": phis, "iterations": its}
+    return {"n": n, "motifs": motifs, "relabel": relabel, "phis": phis, "iterations": its,
+            # edges enter the graph motif by motif, or interleaved (a cover labelled onto an existing graph);
+            # motif ids are arbitrary integers
+            "edge_order": draw(st.sampled_from(["by_motif", "round_robin", "reversed"])),
+            "id_base": draw(st.sampled_from([0, 0, 250, 1000])), "id_step": draw(st.sampled_from([1, 1, 7]))}
 
 
 def strategy(tier):
@@ -79,14 +83,29 @@ def build(case):
     G = nx.Graph()
     G.add_nodes_from(lab(v) for v in range(case["n"]))
     mlist = []
+    rows = []
     for mid, (shape, vs) in enumerate(case["motifs"]):
         k, es = SHAPES[shape]
         nodes = [lab(v) for v in vs]
         edges = [(nodes[a], nodes[b]) for a, b in es]
-        label = f"{k}-{nodes}-{edges}-{mid}"
-        for u, v in edges:
-            G.add_edge(u, v, CoverLabel=label)
+        uid = case.get("id_base", 0) + case.get("id_step", 1) * mid
+        label = f"{k}-{nodes}-{edges}-{uid}"
+        rows.append([(u, v, label) for u, v in edges])
         mlist.append((nodes, edges))
+    order = case.get("edge_order", "by_motif")
+    if order == "round_robin":
+        flat = []
+        i = 0
+        while any(rows):
+            for r in rows:
+                if r:
+                    flat.append(r.pop(0))
+    elif order == "reversed":
+        flat = [x for r in reversed(rows) for x in reversed(r)]
+    else:
+        flat = [x for r in rows for x in r]
+    for u, v, label in flat:
+        G.add_edge(u, v, CoverLabel=label)
     return G, mlist
 
 
